@@ -811,6 +811,15 @@ pub fn oom(args: &Args) -> Report {
                 }
                 oom_family(&mut w, &c, th, &mut r);
             }
+            // the 3-segment release scenarios of the placement phase (whole-segment munmap in a release pass)
+            for (i, mut c) in multiseg_cases(false).into_iter().filter(|c| c.seed_name.starts_with("3-")).enumerate() {
+                if i % nsh != sh {
+                    continue;
+                }
+                // the post part becomes part of the history so that its calls are refused too
+                c.ops.extend(c.post.drain(..));
+                oom_family(&mut w, &c, th, &mut r);
+            }
             if sh == 0 {
                 r.sample(json!({"phase":"oom","history":["m24.8","m70000.8","f0"],"refuse":[1]}));
                 r.sample(json!({"phase":"oom","history":["m3145728.8","f0","m24.8"],"refuse":[1]}));
@@ -820,7 +829,7 @@ pub fn oom(args: &Args) -> Report {
     }
     let mut r = run_isolated(items, &args.out, "C03");
     r.rule = format!(
-        "for every history of exactly {depth} operations of the hist alphabet (sizes {sizes:?}) and every seed x shape of the boundary grid at sizes/alignments {}: \
+        "for every history of exactly {depth} operations of the hist alphabet (sizes {sizes:?}) and every seed x shape of the boundary grid at sizes/alignments {}, and the 144 three-segment release scenarios of the placement phase: \
          run fault-free recording the modelled calls (mmap/mremap/munmap), then for every index k of an mmap or mremap call {}re-run with call k answered ENOMEM{}; \
          after a null result every live block is re-verified, the same operation is retried without refusal and must succeed, and the rest of the history runs under the full oracle. \
          A case (history, k) is non-trivial when the refusal was actually delivered.",
